@@ -475,7 +475,10 @@ def autoforwards_ast(func, func_ast, sig, args=(), kwargs={}):
         func, CallListerVisitor(func_ast),
         args, kwargs, sig))
     if sigs:
-        return _signatures.merge(*sigs)
+        try:
+            return _signatures.merge(*sigs)
+        except ValueError:
+            raise UnknownForwards('Incompatible forwarding calls')
     else:
         raise UnknownForwards('No forwarding of *args, **kwargs found')
 
